@@ -831,6 +831,9 @@ func c09Run(t *testing.T, i int, seed uint64, sp *c09Spec, req *pb.Message, raw 
 			raw = c09Frame(by)
 		}
 	} else {
+		if len(raw) == 0 {
+			raw = []byte{0x05} // an empty stream is no request at all
+		}
 		// raw bytes: what does the real decoder make of them?
 		if n, k := protowire.ConsumeVarint(raw); k > 0 && n <= uint64(network.MessageSizeMax) && uint64(len(raw)-k) >= n {
 			var dec pb.Message
